@@ -163,6 +163,11 @@ def collect():
     for m in sorted(tri, key=lambda m: (m["triage"]["verdict"] != "breaks", m["file"], m["line"])):
         t = m["triage"]
         chk = ", ".join("%s: %s" % kv for kv in (t.get("confirm", {}).get("checks") or {}).items())
+        if t.get("stored") and os.path.exists("/verif/seeded/%s/meta.json" % t["stored"]):
+            fin = json.load(open("/verif/seeded/%s/meta.json" % t["stored"])).get("final", {}).get("checks")
+            if fin:
+                t["final"] = {k: ("input" if v.get("with_input") else "no-input" if v.get("detected") else "quiet") for k, v in fin.items()}
+                chk += " (stored as seeded/%s)" % t["stored"]
         if t.get("final"):
             chk += " -> now " + ", ".join("%s: %s" % kv for kv in t["final"].items())
         reason = (t.get("reason") or "").replace("|", "/").replace("\n", " ")[:300]
